@@ -64,7 +64,7 @@ def mode_cases(draw, nmax=96, order=12):
     count = draw(st.integers(1, 30))
     return {"N": N, "n": n, "m": m, "js": js, "count": max(count, 1), "norm": draw(st.sampled_from(["noll", "rms", "p2v"])),
             "rot": draw(st.one_of(st.just(0.0), st.floats(-math.pi, math.pi))),
-            "coeffs": [draw(gen.dyadic(-4, 4, 16)) for _ in range(draw(st.integers(1, 12)))]}
+            "coeffs": [draw(st.one_of(gen.dyadic(-4, 4, 16), gen.signed_logfloat(1e-14, 1e3), st.just(0.0))) for _ in range(draw(st.integers(1, 12)))]}
 
 
 def mode_body(ctx, case):
@@ -124,6 +124,10 @@ def mode_body(ctx, case):
     want_ph = np.tensordot(np.array(co), zs, axes=1)
     if np.all(np.isfinite(zs)):     # p2v-normalised piston is 0/0 on grids without an outside pixel: undefined, not judged
         ctx.close(ph, want_ph, 1e-12, "phaseFromZernikes == sum c_i Z_i", scale=float(np.max(np.abs(want_ph))) or 1.0)
+        # homogeneity: every coefficient counts, however small
+        tiny = 2.0 ** -40
+        ph_t = z.phaseFromZernikes([c_ * tiny for c_ in co], N, norm=norm, rot=rot)
+        ctx.close(ph_t, want_ph * tiny, 1e-12, "phaseFromZernikes(c * 2^-40) == 2^-40 * phase", scale=(float(np.max(np.abs(want_ph))) or 1.0) * tiny, name="phase homogeneity")
 
 
 # ------------------------------------------------------------------ orthonormality ladder
